@@ -18,9 +18,9 @@ open Sif.Det Sif.Spec.C09 Sif.Generated.MapRanges
 theorem facts_typechecked : loadErrors = [] := by decide
 
 /-- every `range` over a map in consensus code is a reviewed site with an unchanged loop body -/
-theorem mapRanges_covered : uncoveredRanges mapRanges = [] := by decide
+theorem mapRanges_covered : uncoveredRanges mapRanges = [] := by decide +kernel
 
 /-- every float / math / time / rand / goroutine use is a reviewed one -/
-theorem nondetUses_allowed : unallowedUses nondetUses = [] := by decide
+theorem nondetUses_allowed : unallowedUses nondetUses = [] := by decide +kernel
 
 end Sif.Props.C09
